@@ -229,3 +229,30 @@ pub fn enc_cc14(o: &Option<ControlChange14BitMessage>) -> [i64; 3] {
         ],
     }
 }
+
+
+/// How many *additional* times a reset operation calls `reset()` (second integer of op kind 2;
+/// in the model a reset is idempotent): mostly none, sometimes around the wrap-around points of
+/// 8- and 16-bit counters.
+pub fn reset_repeat(r: &mut crate::rng::Rng) -> i64 {
+    if r.chance(3, 4) {
+        0
+    } else {
+        r.pick(&[1i64, 2, 254, 255, 256, 257, 511, 65535, 65536])
+    }
+}
+
+/// With a small probability, one operation of the history is repeated 255..258 times in a row
+/// (counters that wrap, "nothing changed since" shortcuts).
+pub fn long_run(r: &mut crate::rng::Rng, ops: &mut Vec<i64>) {
+    if ops.len() >= 4 && r.chance(1, 40) {
+        let i = 4 * r.below((ops.len() / 4) as u64) as usize;
+        let op = [ops[i], ops[i + 1], ops[i + 2], ops[i + 3]];
+        let k = 254 + r.below(4) as usize;
+        let tail = ops.split_off(i);
+        for _ in 0..k {
+            ops.extend_from_slice(&op);
+        }
+        ops.extend(tail);
+    }
+}
